@@ -23,6 +23,8 @@ RULE = (
     "layer 2: every (branch subset, tag subset, version) of a smaller universe on a real local git repository through "
     "RallyRepository.update; layer 3: every non-empty subset of remote branch names (incl. namespaced names such as "
     "users/jdoe/8.3) x versions on an origin + clone pair. A case is non-trivial when at least one versioned branch of the version's major is present; "
+    "layer 4 (histories, same reference): local repository reused for two runs (every subset of {master, 7, 7.17, 8} x every ordered pair of 4 versions); "
+    "managed clone reused while upstream changes its branch set between the runs (every pair of non-empty subsets of {master, 8, 8.5, 8.6} x versions). "
     "distinct = distinct (branch set, version)."
 )
 ASSUMPTIONS = [
@@ -210,11 +212,15 @@ class GitSandbox:
         shutil.rmtree(self.root, ignore_errors=True)
 
 
-def check_git(sb, branches, tags, version, res):
+def check_git(sb, branches, tags, version, res, prior=None):
     from esrally import exceptions
     from esrally.utils import repo
 
     sb.reset(branches, tags)
+    hist = ""
+    if prior is not None:
+        first = _observe(sb.repo, _update(sb.root, None, prior, True))
+        hist = f" after a run for {prior!r} that left the repository at {first}"
     r = repo.RallyRepository(remote_url=None, root_dir=sb.root, repo_name="default", resource_name="tracks", offline=True)
     err = None
     try:
@@ -267,15 +273,16 @@ def check_git(sb, branches, tags, version, res):
         case_repr={"git_branches": list(branches), "tags": list(tags), "version": version, "observed": list(got), "error": err}
         if res.sample_now(97)
         else None,
-        nontrivial_key=("git", tuple(branches), tuple(tags), version) if branches or tags else None,
-        outcome_key=("git", got[0], step),
+        nontrivial_key=("git", tuple(branches), tuple(tags), version, prior) if branches or tags else None,
+        outcome_key=("git", got[0], step, prior is not None),
     )
     res.traces += 1
     if not ok:
         res.violation(
-            f"git:{step}->{got[0]}",
-            f"git branches={list(branches)} tags={list(tags)} version={version!r}: observed {got} error={err}, expected one of {exp}",
-            {"layer": 2, "branches": list(branches), "tags": list(tags), "version": version},
+            f"git:{step}->{got[0]}" + (":history" if prior is not None else ""),
+            f"git branches={list(branches)} tags={list(tags)} version={version!r}{hist}: observed {got} error={err}, expected one of {exp}",
+            {"layer": 2, "branches": list(branches), "tags": list(tags), "version": version} if prior is None else
+            {"layer": 4, "kind": "local", "branches": list(branches), "v1": prior, "v2": version},
         )
 
 
@@ -328,11 +335,18 @@ class RemoteSandbox(GitSandbox):
                 f.write(self.sha_a + "\n")
 
 
-def check_remote(sb, branches, version, res):
+def check_remote(sb, branches, version, res, prior=None):
     from esrally import exceptions
     from esrally.utils import repo
 
-    sb.reset_remote(branches)
+    hist = ""
+    if prior is None:
+        sb.reset_remote(branches)
+    else:
+        sb.reset_remote(prior[0])
+        first = _observe(sb.clone, _update(sb.croot, sb.repo, prior[1], False))
+        sb.reset(branches, [])
+        hist = f" after a run for {prior[1]!r} when upstream had {list(prior[0])} (clone left at {first})"
     err = None
     try:
         r = repo.RallyRepository(remote_url=sb.repo, root_dir=sb.croot, repo_name="default", resource_name="tracks", offline=False)
@@ -348,16 +362,92 @@ def check_remote(sb, branches, version, res):
     ok = got in exp and not (err or "").startswith("unexpected")
     res.case(
         case_repr={"remote_branches": list(branches), "version": version, "observed": list(got), "error": err} if res.sample_now(37) else None,
-        nontrivial_key=("remote", tuple(branches), version) if branches else None,
-        outcome_key=("remote", got[0], step),
+        nontrivial_key=("remote", tuple(branches), version, (tuple(prior[0]), prior[1]) if prior else None) if branches else None,
+        outcome_key=("remote", got[0], step, prior is not None, bool(prior and set(prior[0]) - set(branches))),
     )
     res.traces += 1
     if not ok:
         res.violation(
-            f"git-remote:{step}->{got[0]}",
-            f"remote branches={list(branches)} version={version!r}: observed {got} error={err}, expected one of {exp}",
-            {"layer": 3, "branches": list(branches), "version": version},
+            f"git-remote:{step}->{got[0]}" + (":history" if prior else ""),
+            f"remote branches={list(branches)} version={version!r}{hist}: observed {got} error={err}, expected one of {exp}",
+            {"layer": 3, "branches": list(branches), "version": version} if prior is None else
+            {"layer": 4, "kind": "remote", "b1": list(prior[0]), "v1": prior[1], "b2": list(branches), "v2": version},
         )
+
+
+# ---------------------------------------------------------------- layer 4: histories (the repository is reused from run to run)
+
+HIST_LOCAL_BRANCHES = ["master", "7", "7.17", "8"]
+HIST_LOCAL_VERSIONS = ["7.17.0", "7.3.0", "8.1.0", "9.0.0"]
+HIST_REMOTE_BRANCHES = ["master", "8", "8.5", "8.6"]
+HIST_REMOTE_VERSIONS = ["8.5.0", "8.7.0"]
+
+
+def _update(root, remote_url, version, offline):
+    from esrally import exceptions
+    from esrally.utils import repo
+
+    try:
+        r = repo.RallyRepository(remote_url=remote_url, root_dir=root, repo_name="default", resource_name="tracks", offline=offline)
+        r.update(version)
+        return None
+    except exceptions.RallyError as e:
+        return type(e).__name__
+    except Exception as e:  # noqa
+        return "unexpected:" + type(e).__name__
+
+
+def _observe(path, err):
+    cur = _git(path, "rev-parse", "--abbrev-ref", "HEAD")
+    return ("error", err) if err else (("branch", cur) if cur != "HEAD" else ("detached", _git(path, "rev-parse", "HEAD")[:10]))
+
+
+def check_local_history(sb, branches, v1, v2, res):
+    """the repository is reused: a run for v1 leaves it on some branch, then the run for v2 must still end on the documented best match"""
+    check_git(sb, branches, [], v2, res, prior=v1)
+
+
+def check_remote_history(sb, b1, v1, b2, v2, res):
+    """upstream has branches b1 when Rally runs for v1, then b2 (branches added / deleted / renamed upstream) when it runs for v2: the managed
+    clone must end on the documented best match among b2"""
+    check_remote(sb, b2, v2, res, prior=(b1, v1))
+
+
+def _history_cases(tier):
+    out = []
+    n = len(HIST_LOCAL_BRANCHES)
+    for mask in range(1, 1 << n):
+        br = [HIST_LOCAL_BRANCHES[i] for i in range(n) if mask >> i & 1]
+        for v1 in HIST_LOCAL_VERSIONS:
+            for v2 in HIST_LOCAL_VERSIONS:
+                out.append(("local", br, v1, v2))
+    n = len(HIST_REMOTE_BRANCHES)
+    for m1 in range(1, 1 << n):
+        b1 = [HIST_REMOTE_BRANCHES[i] for i in range(n) if m1 >> i & 1]
+        for m2 in range(1, 1 << n):
+            b2 = [HIST_REMOTE_BRANCHES[i] for i in range(n) if m2 >> i & 1]
+            for v1 in HIST_REMOTE_VERSIONS if tier == "thorough" else HIST_REMOTE_VERSIONS[:1]:
+                for v2 in HIST_REMOTE_VERSIONS:
+                    out.append(("remote", b1, v1, b2, v2))
+    return out
+
+
+def _layer4_shard(cases):
+    res = Result()
+    lsb = rsb = None
+    try:
+        for c in cases:
+            if c[0] == "local":
+                lsb = lsb or GitSandbox()
+                check_local_history(lsb, c[1], c[2], c[3], res)
+            else:
+                rsb = rsb or RemoteSandbox()
+                check_remote_history(rsb, c[1], c[2], c[3], c[4], res)
+    finally:
+        for sb in (lsb, rsb):
+            if sb:
+                sb.close()
+    return res
 
 
 def _layer3_shard(cases):
@@ -427,6 +517,11 @@ def run(tier, seed):
     r3 = par.pmap(_layer3_shard, par.chunks(_remote_cases(tier), par.NPROC), seed=seed)
     res.extra["layer3_remote_git_cases"] = r3.evaluations
     res.merge(r3)
+    hc = _history_cases(tier)
+    # interleave local and remote cases over the shards
+    r4 = par.pmap(_layer4_shard, [hc[i :: par.NPROC] for i in range(par.NPROC)], seed=seed)
+    res.extra["layer4_history_cases"] = r4.evaluations
+    res.merge(r4)
     res.extra["universe"] = universe
     res.extra["versions"] = [str(v) for v in vers]
     res.states = res.evaluations
@@ -441,6 +536,15 @@ def replay(data):
     res = Result()
     if data["layer"] == 1:
         check_best_match(data["branches"], data["version"], res)
+    elif data["layer"] == 4:
+        sb = GitSandbox() if data["kind"] == "local" else RemoteSandbox()
+        try:
+            if data["kind"] == "local":
+                check_local_history(sb, data["branches"], data["v1"], data["v2"], res)
+            else:
+                check_remote_history(sb, data["b1"], data["v1"], data["b2"], data["v2"], res)
+        finally:
+            sb.close()
     elif data["layer"] == 3:
         sb = RemoteSandbox()
         try:
